@@ -34,6 +34,22 @@ def program_for(s, pos, raw_ws=False):
     raise ValueError(pos)
 
 
+# (d) stale outputs: a directory in which an earlier revision of the program has already been compiled (or run).  Programs of
+# different compiled lengths, with and without an imported module, each revision compiled over every other one
+_LONG = "".join(f"f{i} = fn(a: int) -> int {{\n\treturn a * {i} + 1\n}}\nprint f{i}({i})\n" for i in range(6))
+STALE_PROGS = [
+    {"x.ms": 'print "short"\n'},
+    {"x.ms": _LONG},
+    {"x.ms": 'l: [int...] = [1, 2, 3]\nprint l.map(fn(v: int) -> int {\n\treturn v * 2\n})\nprint "mid"\n'},
+    {"x.ms": "import m\nprint m.v\nprint m.g()\n", "m.ms": "export v: int = 2\nexport g: fn() -> str = fn() -> str {\n\treturn \"g\"\n}\n"},
+    {"x.ms": "import m\nprint m.v + 1\n", "m.ms": "export v: int = 40\n"},
+    {"x.ms": 'print "a"\nimport m\nprint m.h(2)\n' + _LONG,
+     "m.ms": "export h: fn(int) -> int = fn(a: int) -> int {\n\tk = a + 1\n\tif k > 2 {\n\t\treturn k * 10\n\t}\n\treturn k\n}\nprint \"m ready\"\n"},
+    {"x.ms": "class K {\n\tv: int\n\tconstructor(self, v: int) {\n\t\tself.v = v\n\t}\n\tfn get(self) -> int {\n\t\treturn self.v\n\t}\n}\nkk = K(5)\nprint kk.get()\n"},
+]
+STALE_SEQS = ["compile-compile-execute", "run-compile-execute", "compile-run", "run-run"]
+
+
 class C04(Check):
     id = "C04"
     level = "exploration"
@@ -42,7 +58,9 @@ class C04(Check):
             "of an imported module, never-executed code, function body); strings ending in a backslash are inexpressible "
             "as a literal and are counted, not run; raw (unescaped) tab/LF/CR spelling as a deviation; "
             "(b) every example program of /repo/examples and /repo/leetcode_problems; (c) generated programs of the other "
-            "checks' generators.  Each case is executed by `run` and by `compile`+`execute`; non-trivial = the program "
+            "checks' generators; (d) 7 programs of different compiled lengths (with / without an imported module): every revision compiled (or run) in a "
+            "directory that already holds the outputs of every other revision, sequences compile-compile-execute, run-compile-execute, compile-run, run-run, "
+            "compared with a fresh directory.  Each case is executed by `run` and by `compile`+`execute`; non-trivial = the program "
             "compiles; distinct = distinct (string, position, spelling) or file.")
     assumptions = ["map output canonicalised as a token multiset (HashMap order differs between processes)",
                    "NUL is outside the alphabet (it is the instruction separator of the file format)",
@@ -65,6 +83,8 @@ class C04(Check):
         from ..lang import gencorpus
         ls = [("L0-directory-names", [("dir", i) for i in range(len(DIRNAMES))]),
               ("L0-strings<=2-all-positions", list(strings(0, 2, POSITIONS))),
+              ("L0c-stale-outputs-of-an-earlier-revision", [("stale", a, b, q) for a in range(len(STALE_PROGS)) for b in range(len(STALE_PROGS))
+                                                            if a != b for q in range(len(STALE_SEQS))]),
               ("L1-examples", ex),
               ("L2-strings<=2-raw-whitespace", list(strings(0, 2, ["print", "import"], raw=True))),
               ("L3-generated-corpus", [("gen", name) for name in gencorpus.names(tier)]),
@@ -76,11 +96,42 @@ class C04(Check):
         return ls
 
     def describe(self, case):
+        if case[0] == "stale":
+            return {"earlier_revision": case[1], "revision": case[2], "sequence": STALE_SEQS[case[3]]}
         if case[0] == "str":
             return {"string": strlit.decode(case[1]), "position": case[2], "raw_whitespace": case[3]}
         return {"kind": case[0], "name": case[-1]}
 
+    def run_stale(self, case):
+        _, a, b, q = case
+        A, B, seq = STALE_PROGS[a], STALE_PROGS[b], STALE_SEQS[q]
+        ref_dir = driver.fresh_dir()
+        driver.write_files(ref_dir, B)
+        ref = driver.run(["run", "x.ms", "-q"], ref_dir)
+        d = driver.fresh_dir()
+        driver.write_files(d, A)
+        first = driver.run(["compile", "x.ms", "--quick"] if seq.startswith("compile") else ["run", "x.ms", "-q"], d)
+        for f in A:
+            os.unlink(os.path.join(d, f))
+        driver.write_files(d, B)
+        if seq.endswith("compile-execute"):
+            c, got = paths.pipeline_exec(d, "x.ms")
+            got = got if got is not None else c
+        else:
+            got = driver.run(["run", "x.ms", "-q"], d)
+        viol = []
+        if ref.exit != 0 or first.exit != 0:
+            return {"outcome": "stale-machinery", "machinery": f"stale-output programs must be valid: {ref.err[-200:]} {first.err[-200:]}"}
+        if got.exit != ref.exit or got.out != ref.out:
+            viol.append({"sig": {"kind": "stale-output", "seq": seq},
+                         "what": f"revision {b} after revision {a} ({seq}): a fresh directory prints {ref.out!r} exit {ref.exit}; the directory "
+                                 f"holding the earlier revision's outputs gives {got.out[-200:]!r} exit {got.exit} ({got.cls}) {got.err[-200:]}",
+                         "detail": {"files": {"earlier/" + k: v for k, v in A.items()} | B, "sequence": seq, "fresh": ref.brief(), "stale": got.brief()}})
+        return {"outcome": "stale-ok" + ("-DIFF" if viol else ""), "viol": viol, "nontrivial": True, "tags": ["stale", f"stale-{seq}"]}
+
     def run_case(self, case):
+        if case[0] == "stale":
+            return self.run_stale(case)
         d = driver.fresh_dir()
         expected = None
         timeout_note = None
